@@ -111,13 +111,14 @@ type kernel struct {
 	explicit []Switch
 	expPos   int
 
-	sw        [maxSwitches]Switch
-	nsw       int
-	truncated bool
-	overrun   bool
-	deadlock  bool
-	blocks    int64
-	schedHash uint64
+	sw         [maxSwitches]Switch
+	nsw        int
+	truncated  bool
+	overrun    bool
+	deadlock   bool
+	deadlockOp bool
+	blocks     int64
+	schedHash  uint64
 
 	cfg Config
 }
@@ -421,6 +422,7 @@ func block() {
 	if next < 0 {
 		// every live task is blocked: a real deadlock of the program
 		k.deadlock = true
+		k.deadlockOp = true
 		k.status[me] = tsRunnable
 		panic(Deadlock{})
 	}
@@ -451,6 +453,15 @@ func taskDone(me int) {
 	}
 	k.cur = next
 }
+
+//go:norace
+func noteDeadlock() { k.deadlock = true; k.deadlockOp = true }
+
+// TakeDeadlock reports whether a deadlock was detected since the last call (the code under test may have
+// recovered the Deadlock panic itself; the verdict must not depend on that).
+//
+//go:norace
+func TakeDeadlock() bool { d := k.deadlockOp; k.deadlockOp = false; return d }
 
 //go:norace
 func multi() bool { return k.on && k.ntasks > 1 }
